@@ -21,7 +21,7 @@ def consIn (t : Tbl) : Cons → Prop
   | .uq u => u ∈ t.uqs
 
 theorem namedCons_in (t : Tbl) (n : String) (x : Cons) (h : (n, x) ∈ namedCons t) : consIn t x := by
-  simp only [namedCons, List.mem_append, List.mem_filterMap, List.mem_map] at h
+  simp only [namedCons, uqNamed, idxNamed, List.mem_append, List.mem_filterMap, List.mem_map] at h
   rcases h with ⟨u, hu, he⟩ | ⟨i, hi, he⟩
   · cases hn : u.name with
     | none => simp [hn] at he
@@ -133,14 +133,27 @@ theorem cmpIdxUq_in (P : Cmp) (k : Key) (c : Tbl) (md : Option Tbl) :
     split at hg
     · simp at hg
     · split at hg
-      · split at hg
+      · rename_i cu ci hcu hci
+        have hinu := hcN p.1 cu (lookupTyped_spec _ _ _ _ hcu).2.2
+        have hini := hcN p.1 ci (lookupTyped_spec _ _ _ _ hci).2.2
+        split at hg
+        · simp only [List.mem_append] at hg
+          rcases hg with hg | hg
+          · exact objRemoved_in P c k _ cu hinu g hg
+          · exact objRemoved_in P c k _ ci hini g hg
         · simp at hg
+      · split at hg
+        · split at hg
+          · simp at hg
+          · exact objRemoved_in P c k _ p.2 hin g hg
         · exact objRemoved_in P c k _ p.2 hin g hg
-      · exact objRemoved_in P c k _ p.2 hin g hg
   · split at hg
     · simp at hg
     · rename_i x hlx
-      have hin := hcN p.1 x (lookup_mem _ _ _ hlx)
+      have hin : consIn c x := by
+        rcases lookupConn_spec _ _ _ _ hlx with h | h
+        · exact hcN p.1 x (lookupTyped_spec _ _ _ _ h).2.2
+        · exact hcN p.1 x (lookupTyped_spec _ _ _ _ h.2).2.2
       split at hg
       · simp only [List.mem_append] at hg
         rcases hg with hg | hg
@@ -160,7 +173,11 @@ theorem cmpIdxUq_none_notouch (P : Cmp) (k : Key) (md : Option Tbl) :
   simp only [cmpIdxUq, List.mem_append, List.mem_flatMap, hnil] at hg
   rcases hg with ((⟨p, hp, hg⟩ | ⟨p, hp, hg⟩) | ⟨p, hp, hg⟩) | ⟨u, _, hg⟩
   · simp [firsts] at hp
-  · simp at hg
+  · have hl : ∀ w n, lookupConn none w n = none := by
+      intro w n; simp [lookupConn, lookupTyped]
+    have hif : (if md.isNone = true then Option.map (fun c : Tbl => { c with uqs := [] }) none else none) = none := by
+      cases md <;> simp
+    simp [hif, hl] at hg
   · exact objAdded_notouch P k _ p.2 g (mem_of_mem_ite_nil hg)
   · exact objAdded_notouch P k _ (.uq u) g (mem_of_mem_ite_nil hg)
 
@@ -220,10 +237,18 @@ theorem candidates_in (P : Cmp) (A B : List Tbl) :
       subst ht
       simp only [tableExisting, List.mem_append] at hg
       have key : OpIn c c.key op := by
-        rcases hg with ((hg | hg) | hg) | hg
+        rcases hg with (((hg | hg) | hg) | hg) | hg
         · exact cols_in P c.key c m g (List.mem_append_left _ hg) op hop
         · exact cmpIdxUq_in P c.key c (some m) g hg op hop
         · exact cmpFks_in c.key c m g hg op hop
+        · intro _
+          simp only [tableCommentG, List.mem_singleton] at hg
+          subst hg
+          by_cases hd : P.tableCommentDiffer c.key = true
+          · simp [hd] at hop
+            subst hop
+            exact ⟨by simp [TargetIn], rfl⟩
+          · simp [hd] at hop
         · exact cols_in P c.key c m g (List.mem_append_right _ hg) op hop
       obtain ⟨h1, h2⟩ := key htouch
       exact ⟨c, hmem, h2.symm, h1⟩
